@@ -14,7 +14,9 @@ class ELUPlus(nn.Module):
         self.elu = nn.ELU()
 
     def forward(self, x):
-        return self.elu(x) + 1.
+        # elu(x) + 1 == exp(x) for x <= 0, but (exp(x) - 1) + 1 cancels to exactly 0 once exp(x) drops below the
+        # machine epsilon, which makes the log-derivative of the normalizer -inf; evaluate exp(x) directly there.
+        return torch.where(x >= -1., self.elu(x) + 1., torch.exp(torch.clamp(x, max=-1.)))
 
 
 class IntegrandNet(nn.Module):
